@@ -90,14 +90,36 @@ fn digit(c: char) -> bool {
 }
 /// Character pairs (last written, first to write) that lex differently when adjacent AND can
 /// be adjacent in a grammatical token sequence (DESIGN.md section 3, O-lex).
+/// ('.', digit) is deliberately NOT required: a lone `.` token is always followed by a Name, and
+/// `..` / `...` followed by a digit lex as the same two tokens.
 pub fn fuses(a: char, b: char) -> bool {
     (word(a) && word(b))
         || (digit(a) && b == '.')
         || (a == '.' && b == '.')
-        || (a == '.' && digit(b))
         || (a == '-' && b == '-')
         || (a == '[' && b == '[')
         || (a == '>' && b == '=')
+}
+
+/// OVER-approximation of the pairs (a, b) that can NOT be the last / first byte of two tokens that
+/// are directly adjacent in a valid Lua/Luau source text (maximal munch would have merged them or
+/// read different tokens).  Used only to EXCLUDE pairs from the byte-for-byte obligation of C03.
+pub fn may_lex_together(a: u8, b: u8) -> bool {
+    let (ca, cb) = (a as char, b as char);
+    (word(ca) && word(cb))
+        || (digit(ca) && b == b'.')
+        || (a == b'.' && (b == b'.' || digit(cb)))
+        || (a == b'-' && (b == b'-' || b == b'>'))
+        || (a == b'[' && (b == b'[' || b == b'='))
+        || (a == b'=' && b == b'=')
+        || (matches!(a, b'<' | b'>' | b'~' | b'+' | b'-' | b'*' | b'/' | b'%' | b'^' | b'.') && b == b'=')
+        || (a == b':' && b == b':')
+        || (a == b'/' && b == b'/')
+        || (a == b'<' && b == b'<')
+        || (a == b'>' && b == b'>')
+        || matches!(a, b'"' | b'\'' | b'`' | b'\\')
+        || matches!(b, b'"' | b'\'' | b'`' | b'\\')
+        || a <= b' ' || b <= b' ' || a >= 0x7F || b >= 0x7F
 }
 
 // ---------------------------------------------------------------- O-esc
